@@ -231,14 +231,22 @@ NOTE_M2 = ("Modelled, not verified: Python's semantics of the fragment (validate
            "oracles). ")
 
 CLAIMS["C01"] = dict(
-    technique="Lean 4 simulation theorem for the source-to-source rewrite (instrument_refines) + AST correspondence with ptera.transform + executable correspondence with CPython and real probes + differential oracle",
-    text="PARTIAL. " + M2 + THM + "With an observing handler each captured binding stores what Python stores "
-         "(C01_observer_changes_nothing) and uncaptured names never reach the handler (C01_uncaptured_untouched). The "
-         "erasure of the observing handler over WHOLE runs (reference semantics = plain Python) is not proved; it is "
-         "explored by the differential oracle: untouched function vs tooled / tooled in place / probed on random "
-         "subsets of its variables (result or exception, yields, ordered helper log, object and global state). " + TIE,
+    technique="Lean 4: simulation theorem for the source-to-source rewrite (instrument_refines) composed with an erasure theorem for observing handlers (C01_transparent) + AST correspondence with ptera.transform + executable correspondence with CPython and real probes + differential oracle",
+    text=M2 + THM + "Erasure theorem (Proofs/Erase*.lean, by induction over the syntax again): with a handler that "
+         "only observes, the reference semantics of a core function without bare declarations is plain Python - globals "
+         "read at entry equal globals read at use, re-binding a name to itself after Python's own store is a no-op "
+         "because the store leaves the name bound, meta events only touch the handler state. Composition "
+         "(C01_transparent): for every such function, every capture set, every host that never hands ptera's marker to "
+         "the program, every observing handler, every input, generator script and loop bound, the REWRITTEN function ends "
+         "the same way as the UNTOUCHED one, with the same world (ordered side effects), the same values yielded and the "
+         "same driver script consumed. C01_transparent_generated instantiates it with the host of the generated programs "
+         "and a recording handler: no hypothesis about hosts is left. Outside the theorem's fragment (chained assignment, "
+         "computed subscripts of a named container, global/nonlocal, closures) the property rests on the correspondence "
+         "and the differential oracle: untouched function vs tooled / tooled in place / probed on random subsets of its "
+         "variables (result or exception, yields, ordered helper log, object and global state). " + TIE,
     design_ref="DESIGN.md section 5, C01",
-    note=NOTE_M2,
+    note=NOTE_M2 + "Bare declarations are the documented exception (excluded by noDeclB). The marker assumption "
+         "(HostGood) is proved for the concrete host of the generated programs (PyLite.hostGood).",
 )
 CLAIMS["C02"] = dict(
     technique="Lean 4: events of the rewritten function = events of the reference semantics (corollary of instrument_refines) + per-binding lemmas; AST / executable correspondence; twin-program oracle",
